@@ -139,6 +139,10 @@ func (t *template) layout(ctx context.Context, w io.Writer) error {
 				for _, n := range templateNodes {
 					assignSeenAttrs(&onceCtx, n)
 				}
+				// (shorthand component tags are includes: what they contain is theirs)
+				if err := t.vue.resolveComponentTags(templateNodes); err != nil {
+					return err
+				}
 				inheritedSlotScope = extractSlotsFromDOM(templateNodes)
 			}
 		}
